@@ -21,8 +21,9 @@ type Check struct {
 	N        int
 	DevBound int // deviations (map order + rand) per Join(-1); <0 = all
 	MaxState int
-	Beside   bool // a second seat manager lives in the process (see otherTable)
-	Workers  int  // 0 = all cores
+	Beside   bool  // a second seat manager lives in the process (see otherTable)
+	Workers  int   // 0 = all cores
+	Only     []int // sparse exploration of a large table: seat operations only on these seats (plus Next)
 
 	scenarios int64
 	nextOK    int64
@@ -33,6 +34,19 @@ type Check struct {
 type sink func(sig, msg, expected, observed string)
 
 // label of an executed op: choices are appended so that a history replays exactly.
+func (c *Check) alphabet() []Op {
+	if c.Only == nil {
+		return Alphabet(c.N)
+	}
+	var ops []Op
+	for _, kind := range []string{"Join", "Seat", "Reserve", "Leave"} {
+		for _, k := range c.Only {
+			ops = append(ops, Op{kind, k})
+		}
+	}
+	return append(ops, Op{Kind: "Next"})
+}
+
 func stepLabel(op Op, choices []int) string {
 	l := op.Label()
 	nz := false
@@ -509,7 +523,7 @@ func (c *Check) RunReplay() {
 		k := r.st.key()
 		return explore.HashKey(append(k[:], r.ident...))
 	}}
-	ops := Alphabet(c.N)
+	ops := c.alphabet()
 	m0 := sm.NewSeatManager(c.N)
 	init := &rnode{st: Snap(m0, c.N), ident: identity(m0)}
 	var execs int64
@@ -583,7 +597,7 @@ func (c *Check) RunReplay() {
 // Run explores all operation sequences on a table of c.N seats.
 func (c *Check) Run() {
 	b := &explore.BFS[*St]{MaxStates: c.MaxState, KeyOf: func(s *St) explore.Key { return s.key() }}
-	ops := Alphabet(c.N)
+	ops := c.alphabet()
 	init := Initial(c.N)
 	var execs int64
 	b.Run([]*St{init}, func(nd explore.Node[*St], emit func(string, *St) (int32, bool)) {
@@ -640,7 +654,11 @@ func (c *Check) Run() {
 	c.Rep.Add("next_refusals_checked", c.nextErr)
 	c.Rep.Add("late_joiner_scenarios", c.scenarios)
 	c.Rep.Add("join_any_states", c.joinAny)
-	c.Rep.Set(fmt.Sprintf("states_n%d", c.N), b.States)
+	if c.Only == nil {
+		c.Rep.Set(fmt.Sprintf("states_n%d", c.N), b.States)
+	} else {
+		c.Rep.Add(fmt.Sprintf("states_n%d_sparse", c.N), b.States)
+	}
 	if b.Capped != "" {
 		c.Rep.Cap(fmt.Sprintf("%s at %d seats (states=%d, completed depth=%d)", b.Capped, c.N, b.States, b.MaxDepth))
 	}
